@@ -302,7 +302,24 @@ func (g *gen) motifOps(ln *OpLine) {
 			ln.Ops = append(ln.Ops, Op{A: "Submit", T: t, Mode: "net"})
 		}
 	}
-	switch r.Intn(3) {
+	switch r.Intn(4) {
+	case 3:
+		// a pooled family, a restart on a damaged pool file, then the same transactions and a double spend again
+		sub(p, c1, c2, q, gg)
+		mode := "cut"
+		if r.Intn(5) == 0 {
+			mode = "corrupt"
+		}
+		ln.Ops = append(ln.Ops, Op{A: "SaveCutLoad", Mode: mode, K: r.Intn(1 << 20)})
+		switch r.Intn(3) {
+		case 0:
+			sub(rr, p, c1)
+		case 1:
+			sub(c1, c2, p, c1, rr)
+		default:
+			sub(p, c1, c2, q, gg)
+		}
+		ln.Ops = append(ln.Ops, Op{A: "Observe"}, Op{A: "MineListing", K: -1})
 	case 0:
 		// a transaction (and its child) is pooled, its cheaper double spend is refused but kept in the reject cache
 		// (or: was pooled first and got replaced), and then somebody mines the double spend
@@ -492,7 +509,23 @@ func (g *gen) makeOps(ntx, nops, nbulky, nchain, nrank, variant int) OpLine {
 		case k < 98:
 			ln.Ops = append(ln.Ops, Op{A: "Expire", Txs: some(1 + r.Intn(3))})
 		default:
-			ln.Ops = append(ln.Ops, Op{A: "SaveLoad"})
+			if r.Intn(2) == 0 {
+				ln.Ops = append(ln.Ops, Op{A: "SaveLoad"})
+				break
+			}
+			// restart with a pool file that was cut short or damaged; then the peers offer the same transactions
+			// again (double spends and children included)
+			mode := "cut"
+			if r.Intn(5) == 0 {
+				mode = "corrupt"
+			}
+			ln.Ops = append(ln.Ops, Op{A: "SaveCutLoad", Mode: mode, K: r.Intn(1 << 20)})
+			for i := len(recent) - 8; i < len(recent); i++ {
+				if i >= 0 {
+					ln.Ops = append(ln.Ops, Op{A: "Submit", T: recent[i], Mode: "net"})
+				}
+			}
+			ln.Ops = append(ln.Ops, Op{A: "Observe"})
 		}
 	}
 	return ln
